@@ -22,6 +22,8 @@ import sys
 
 PREFIX = '/simfs'
 
+_REAL_FILEIO = io.FileIO
+
 _real = {
     'open': builtins.open, 'stat': os.stat, 'lstat': os.lstat, 'scandir': os.scandir, 'listdir': os.listdir,
     'mkdir': os.mkdir, 'getcwd': os.getcwd,
@@ -579,6 +581,35 @@ class SimFS:
         return _Mount(self)
 
 
+class _FileIOMeta(type):
+    def __instancecheck__(cls, inst):
+        return isinstance(inst, (_REAL_FILEIO, FakeRaw, _NoCloseRaw))
+
+    def __subclasscheck__(cls, sub):
+        return issubclass(sub, (_REAL_FILEIO, FakeRaw, _NoCloseRaw))
+
+
+def _make_fileio(fs):
+    """io.FileIO while mounted: the raw layer of the simulator for simulated paths / descriptors, the real class otherwise."""
+    class SimFileIO(metaclass=_FileIOMeta):
+        def __new__(cls, file, mode='r', closefd=True, opener=None):
+            if isinstance(file, int) and file in fs._fds:
+                raw = fs._fds[file]
+                if closefd:
+                    return raw
+                return _NoCloseRaw(raw)
+            p = fs.resolve(file)
+            if p is None:
+                fs._guard('io.FileIO', file)
+                return _REAL_FILEIO(file, mode, closefd, opener)
+            m = set(mode) - {'b'}
+            reading, writing, appending, creating, updating = 'r' in m, 'w' in m, 'a' in m, 'x' in m, '+' in m
+            fs.bump('fileio_used')
+            return FakeRaw(fs, p, reading=reading or updating, writing=writing or appending or creating or updating,
+                           create=writing or appending or creating, excl=creating, trunc=writing, append=appending, mode=mode)
+    return SimFileIO
+
+
 class _Mount:
     def __init__(self, fs):
         self.fs = fs
@@ -590,6 +621,7 @@ class _Mount:
         fs._mounted = True
         builtins.open = fs.sim_open
         io.open = fs.sim_open
+        io.FileIO = _make_fileio(fs)
         os.stat, os.lstat = fs.sim_stat, fs.sim_lstat
         os.scandir, os.listdir = fs.sim_scandir, fs.sim_listdir
         os.mkdir, os.getcwd = fs.sim_mkdir, fs.sim_getcwd
@@ -602,6 +634,7 @@ class _Mount:
     def __exit__(self, *exc):
         builtins.open = _real['open']
         io.open = _real['open']
+        io.FileIO = _REAL_FILEIO
         os.stat, os.lstat = _real['stat'], _real['lstat']
         os.scandir, os.listdir = _real['scandir'], _real['listdir']
         os.mkdir, os.getcwd = _real['mkdir'], _real['getcwd']
